@@ -27,6 +27,8 @@ CHECKS = {
          'bounded exhaustive differential enumeration (str vs bytes vs all windows) with an absolute coordinate anchor'),
  'C09': ('exploration', '4 C09', 'Every pair 0<=n<=m of the stated boxes (straddling the factoring threshold 50 from both sides) x 8 item kinds (in rules and inside terminals) x lalr/earley x every count k in 0..m+2 (lalr) or around the bounds (earley): accept iff n<=k<=m, exactly k consecutive children, no helper nodes; pairs of occurrences sharing the helper-rule cache; ? * + with k=0..6.',
          'bounded exhaustive enumeration of (n, m, item kind, parser, k) against an arithmetic oracle'),
+ 'C14': ('exploration', '4 C14', 'A menu of 15 LALR grammars x lexer x str/bytes x every text up to the bound x every window: list(scan()) must equal the leftmost-longest match list computed by brute force (reference lexer for the token boundaries of the full text, real parse() on every candidate window), each value equal to parse(TextSlice(text,s,e)) with positions and meta.',
+         'bounded exhaustive enumeration of (grammar, text, window) against a brute-force leftmost-longest oracle'),
 }
 NOT_YET = {}
 def main():
